@@ -509,10 +509,19 @@ pub mod cabi {
     use std::cell::RefCell;
     use std::collections::HashMap;
 
-    thread_local! {
-        pub static LEDGER: RefCell<HashMap<usize, usize>> = RefCell::new(HashMap::new());
-        pub static ALLOCS: RefCell<(usize, usize, usize)> = RefCell::new((0, 0, 0)); // allocs, frees, bad frees
+    // process-wide (worker threads of the multi-threaded entry points allocate and free too)
+    pub struct Glob<T>(pub std::sync::Mutex<Option<T>>);
+    impl<T: Default> Glob<T> {
+        pub fn with<R, F: FnOnce(&RefCell<T>) -> R>(&self, f: F) -> R {
+            let mut g = self.0.lock().unwrap_or_else(|e| e.into_inner());
+            let cell = RefCell::new(g.take().unwrap_or_default());
+            let r = f(&cell);
+            *g = Some(cell.into_inner());
+            r
+        }
     }
+    pub static LEDGER: Glob<HashMap<usize, usize>> = Glob(std::sync::Mutex::new(None));
+    pub static ALLOCS: Glob<(usize, usize, usize)> = Glob(std::sync::Mutex::new(None)); // allocs, frees, bad frees
     pub extern "C" fn c_alloc(_opaque: *mut c_void, size: usize) -> *mut c_void {
         let layout = std::alloc::Layout::from_size_align(size.max(1) + 32, 32).unwrap();
         let p = unsafe { std::alloc::alloc_zeroed(layout) };
